@@ -37,6 +37,11 @@ def main():
             if line.startswith("go test") or line.startswith("go run"):
                 cmd = line
                 break
+    if not place and cmd:
+        # package-internal test: put it into the package directory the command names
+        m = re.search(r"(\./weed/\S+)", cmd)
+        if m:
+            place = m.group(1).lstrip("./").rstrip("/") + "/zz_seeded_demo_%s_test.go" % sid.replace("-", "_").lower()
     out = {"id": sid, "property": meta.get("property"), "place": place, "cmd": cmd}
     if not (place and cmd and src):
         out["status"] = "cannot-parse-demo"
